@@ -35,7 +35,7 @@ ASSUMPTIONS = [
     "XML well-formedness in the presence of control characters is required only with strip_control=True",
     "characters that XML 1.0 cannot represent at all (U+FFFE, U+FFFF, lone surrogates) are not generated",
 ]
-PROBES = ["strip_control with plain text", "text sink with a narrow codec argument", "page box degenerate or displaced", "rotated or mirrored text", "earlier job aborted inside a form", "page selection: none", "page selection: first", "page selection: odd", "xml with exported images", "sink:StringIO", "sink:TextIOWrapper", "sink:BytesIO", "sink:mode-w", "sink:mode-wb", "sink:duck", "codec:utf-16-le", "codec:utf-32-le", "codec:latin-1", "special char in text", "control char in text", "astral char in text", "special char in font name", "special char in figure name", "strip_control", "figure", "shape", "image", "boxes_flow None", "vertical text box"]
+PROBES = ["plain text without layout analysis", "strip_control with plain text", "text sink with a narrow codec argument", "page box degenerate or displaced", "rotated or mirrored text", "earlier job aborted inside a form", "page selection: none", "page selection: first", "page selection: odd", "xml with exported images", "sink:StringIO", "sink:TextIOWrapper", "sink:BytesIO", "sink:mode-w", "sink:mode-wb", "sink:duck", "codec:utf-16-le", "codec:utf-32-le", "codec:latin-1", "special char in text", "control char in text", "astral char in text", "special char in font name", "special char in figure name", "strip_control", "figure", "shape", "image", "boxes_flow None", "vertical text box"]
 TIERS = {
     "quick": {"batches": 16, "runs": 350, "budget_s": 90},
     "thorough": {"batches": 128, "runs": 500, "budget_s": 1200},
@@ -440,6 +440,31 @@ def run(tape, ctx, item=None):
             n = next((i for i, (x, y) in enumerate(zip(got, want_text)) if x != y), min(len(got), len(want_text)))
             devs.append(Dev("C11:text:differs-from-tree" + (":binary-sink" if codec else ":text-sink"), "at char %d: output %r, tree gives %r; %s" % (n, got[max(0, n - 15) : n + 15], want_text[max(0, n - 15) : n + 15], cfg)))
         scen.append(cfg)
+    if t.coin(20, 100, "text.nolayout"):
+        # no layout parameters at all: extract_text_to_fp then writes the unanalysed tree (the glyphs in showing order, one
+        # form feed per page) - the tree a PDFPageAggregator without layout parameters builds
+        ctx.probe("plain text without layout analysis")
+        try:
+            from pdfminer.converter import PDFPageAggregator
+            from pdfminer.pdfinterp import PDFPageInterpreter, PDFResourceManager
+            from pdfminer.pdfpage import PDFPage
+
+            rm = PDFResourceManager()
+            agg = PDFPageAggregator(rm, laparams=None)
+            interp = PDFPageInterpreter(rm, agg)
+            flat = []
+            for pg in PDFPage.get_pages(io.BytesIO(data), sel):
+                interp.process_page(pg)
+                flat.append(agg.get_result())
+            want_flat = "".join(tree_text(p) + "\f" for p in flat)
+            kind, sink, codec, read = make_sink(t, ctx, want_flat)
+            HL.extract_text_to_fp(io.BytesIO(data), sink, output_type="text", codec=codec or "utf-8", laparams=None, page_numbers=sel)
+            got = read()
+            if got != want_flat:
+                n = next((i for i, (x, y) in enumerate(zip(got, want_flat)) if x != y), min(len(got), len(want_flat)))
+                devs.append(Dev("C11:text:differs-from-tree:no-layout", "at char %d: output %r, the unanalysed tree gives %r; sink=%s codec=%s laparams=None pages=%s" % (n, got[max(0, n - 15) : n + 15], want_flat[max(0, n - 15) : n + 15], kind, codec, selkind)))
+        except Exception as e:
+            devs.append(Dev("C11:text:raise:%s@%s" % (type(e).__name__, where(e)), "%r; output=text laparams=None pages=%s" % (e, selkind)))
     try:
         xcodec = t.pick(["utf-8", "utf-8", "ascii", "latin-1", "cp1252"], "extract_text.codec")
         if HL.extract_text(io.BytesIO(data), laparams=la(), page_numbers=sel, codec=xcodec) != want_text:
